@@ -198,11 +198,18 @@ def sexp(node, inline):
     if isinstance(node, ast.Constant):
         if node.value is None:
             return "SNone"
+        if node.value is True or node.value is False:
+            return f"(SName {coq_string(str(node.value))})"
         need(isinstance(node.value, (int, float)) and not isinstance(node.value, bool),
              f"skeleton: unsupported constant {node.value!r}")
         return f"(SNum {coq_q(node.value)})"
     if isinstance(node, ast.UnaryOp) and isinstance(node.op, ast.USub):
         return f"(SNum {coq_q(-const_num(node.operand))})"
+    if isinstance(node, ast.Subscript) and isinstance(node.slice, ast.Slice):
+        return f"(SSl {slice_kind(node.slice)} {sexp(node.value, inline)})"                          # is_missing[:-1]
+    if isinstance(node, ast.Subscript) and isinstance(node.value, ast.Name) and isinstance(node.slice, ast.Constant) \
+            and isinstance(node.slice.value, int) and not isinstance(node.slice.value, bool):
+        return f"(SAttr (SName {coq_string(node.value.id)}) {coq_string(str(node.slice.value))})"   # valid_span[0]
     if isinstance(node, ast.UnaryOp) and isinstance(node.op, (ast.Invert, ast.Not)):
         return f"(SInv {sexp(node.operand, inline)})"
     if isinstance(node, ast.Compare):
@@ -220,9 +227,28 @@ def sexp(node, inline):
     if isinstance(node, ast.Call):
         f = node.func
         name = f.attr if isinstance(f, ast.Attribute) else getattr(f, "id", None)
-        need(name == "isnan" and len(node.args) == 1, f"skeleton: unsupported call {ast.dump(node)}")
+        need(name in ("isnan", "any") and len(node.args) == 1 and not node.keywords,
+             f"skeleton: unsupported call {ast.dump(node)}")
         return f"(SCall {coq_string(name)} {sexp(node.args[0], inline)})"
     raise TranslateError(f"skeleton: unsupported expression {ast.dump(node)}")
+
+
+def slice_kind(sl):
+    """`[1:]` -> true, `[:-1]` -> false; anything else is refused"""
+    def num(n):
+        if n is None:
+            return None
+        if isinstance(n, ast.UnaryOp) and isinstance(n.op, ast.USub) and isinstance(n.operand, ast.Constant):
+            return -n.operand.value
+        need(isinstance(n, ast.Constant) and isinstance(n.value, int), f"skeleton: unsupported slice bound {ast.dump(n)}")
+        return n.value
+    lo, hi, step = num(sl.lower), num(sl.upper), num(sl.step)
+    need(step is None, "skeleton: slice with a step")
+    if (lo, hi) == (1, None):
+        return "true"
+    if (lo, hi) == (None, -1):
+        return "false"
+    raise TranslateError(f"skeleton: unsupported slice [{lo}:{hi}]")
 
 
 def is_flag_value(node):
@@ -251,6 +277,12 @@ def skeleton(fn):
                         steps.append(f"SAt {g} {coq_z(-sl.operand.value)} {st.value.attr}")
                     else:
                         steps.append(f"SWhere {g} {sexp(sl, inline)} {st.value.attr}")
+                elif isinstance(tg, ast.Subscript) and isinstance(tg.value, ast.Subscript) \
+                        and isinstance(tg.value.value, ast.Name) and tg.value.value.id in FLAG_ARRAY_NAMES \
+                        and is_flag_value(st.value):
+                    need(isinstance(tg.value.slice, ast.Slice), f"skeleton: unsupported flag view, line {st.lineno}")
+                    g = "[" + "; ".join(guards) + "]"
+                    steps.append(f"SWhereSl {g} {slice_kind(tg.value.slice)} {sexp(tg.slice, inline)} {st.value.attr}")
                 elif isinstance(tg, ast.Name) and isinstance(st.value, (ast.Compare, ast.BinOp)) \
                         and (isinstance(st.value, ast.Compare) or isinstance(st.value.op, (ast.BitOr, ast.BitAnd))):
                     inline[tg.id] = st.value          # mloc = lon.mask & lat.mask
@@ -279,10 +311,12 @@ def _translatable(node, inline):
 
 def _has_flag_assign(node):
     for n in ast.walk(node):
-        if isinstance(n, ast.Assign) and len(n.targets) == 1 and isinstance(n.targets[0], ast.Subscript) \
-                and isinstance(n.targets[0].value, ast.Name) and n.targets[0].value.id in FLAG_ARRAY_NAMES \
-                and is_flag_value(n.value):
-            return True
+        if isinstance(n, ast.Assign) and len(n.targets) == 1 and isinstance(n.targets[0], ast.Subscript):
+            base = n.targets[0].value
+            while isinstance(base, ast.Subscript):
+                base = base.value
+            if isinstance(base, ast.Name) and base.id in FLAG_ARRAY_NAMES:
+                return True
     return False
 
 
@@ -379,7 +413,8 @@ def generate(repo):
     # flag-assignment skeletons of the straight-line tests (meaning: Skel.run_steps; tied to the hand-written
     # models by SkelProofs.v)
     for mod, name in [(qartod, "gross_range_test"), (qartod, "spike_test"), (qartod, "rate_of_change_test"),
-                      (qartod, "location_test"), (qartod, "attenuated_signal_test")]:
+                      (qartod, "location_test"), (qartod, "attenuated_signal_test"),
+                      (argo, "speed_test"), (axds, "valid_range_test"), (qartod, "density_inversion_test")]:
         st = skeleton(find_func(mod, name))
         need(st, f"skeleton of {name} is empty")
         w(f"Definition skel_{name} : list sstep := [")
